@@ -83,8 +83,52 @@ def detect(directory, prop, extra):
             'harness_errors': errs[:5]}
 
 
+def keep(directory, prop, name, extra):
+    """confirm + detect, then store under /verif/seeded/<name>/"""
+    conf = confirm(directory)
+    rebased = conf.pop('rebased_patch', None)
+    if not conf.get('confirmed'):
+        print(json.dumps(conf, indent=1))
+        print('NOT CONFIRMED - not kept')
+        return
+    det = detect(directory, prop, extra)
+    target = os.path.join(VERIF, 'seeded', name)
+    os.makedirs(target, exist_ok=True)
+    with open(os.path.join(target, 'patch.diff'), 'w') as handle:
+        handle.write(rebased)
+    for fname in ('demo.py', 'notes.md'):
+        src = os.path.join(directory, fname)
+        if os.path.exists(src):
+            with open(src) as inp, open(os.path.join(target, fname), 'w') as outp:
+                outp.write(inp.read())
+    notes = open(os.path.join(directory, 'notes.md')).read() if os.path.exists(os.path.join(directory, 'notes.md')) else ''
+    head = sh(['git', '-C', REPO, 'rev-parse', '--short', 'HEAD']).stdout.strip()
+    meta = {
+        'breaks_property': prop,
+        'needs_to_manifest': notes.strip()[:1500],
+        'confirmed_on_repo_head': head,
+        'ran': [
+            'scratch worktree of /repo HEAD: pytest outcome with patch == baseline (%s)' % conf['suite_mutant'],
+            'demo.py on clean worktree: exit %d; with patch: exit %d (%s)' % (
+                conf['demo_clean_exit'], conf['demo_mutant_exit'], conf['demo_mutant_out'][:200]),
+            'git -C /repo apply patch.diff; ./check %s %s; git -C /repo checkout -- .' % (prop, ' '.join(extra)),
+        ],
+        'check_exit': det['exit'],
+        'detected': det['exit'] == 1 and bool(det['violations']),
+        'violations': det['violation_details'][:4],
+        'harness_errors': det['harness_errors'][:2],
+    }
+    with open(os.path.join(target, 'meta.json'), 'w') as handle:
+        json.dump(meta, handle, indent=1)
+    print(name, 'detected' if meta['detected'] else 'MISSED', 'exit', det['exit'], meta['violations'][:2],
+          det['harness_errors'][:1])
+
+
 def main():
     mode, directory = sys.argv[1], sys.argv[2]
+    if mode == 'keep':
+        keep(directory, sys.argv[3], sys.argv[4], sys.argv[5:])
+        return
     if mode == 'confirm':
         out = confirm(directory)
         rebased = out.pop('rebased_patch', None)
